@@ -33,7 +33,7 @@ func (e *Engine) newVC(fn *ssa.Function, con *Contract) *VC {
 	vc := &VC{eng: e, fn: fn, con: con, declared: map[string]bool{}, heapSort: map[string]string{}, heapElem: map[string]types.Type{}, heapRows: map[string]bool{}, ghost: map[string]bool{},
 		counters: map[string]int{}, assumes: map[string]bool{}, strConst: map[string]string{}, typeIDs: map[string]int{},
 		params: map[string]SV{}, modLoops: map[*ssa.BasicBlock]map[string]bool{}, modFound: map[*ssa.BasicBlock]map[string]bool{},
-		nonnil: map[T]bool{}, used: map[string]bool{}, preludeUsed: map[string]bool{}}
+		nonnil: map[T]bool{}, used: map[string]bool{}, preludeUsed: map[string]bool{}, ghostType: map[string]types.Type{}}
 	vc.mode = e.defaultMode(fn)
 	if con != nil && con.ModeSet {
 		vc.mode = con.Mode
@@ -60,6 +60,19 @@ func (e *Engine) defaultMode(fn *ssa.Function) Mode {
 func (vc *VC) registerGhosts() {
 	for _, g := range vc.eng.ghosts {
 		srt := g.Sort
+		if strings.HasPrefix(srt, "$") && !strings.ContainsAny(srt, "( ") {
+			// a ghost of a Go type
+			if t := vc.eng.parseGoType(srt[1:]); t != nil {
+				if _, abstract := valueModeSorts[typeKey(t)]; abstract && vc.mode != ValueMode {
+					continue
+				}
+				vc.ensureGhost(ghostName(g.Name), vc.sortOf(t))
+				vc.ghostType[ghostName(g.Name)] = t
+				continue
+			}
+			vc.errorf("ghost %s: unknown Go type %s", g.Name, srt)
+			continue
+		}
 		if strings.Contains(srt, "$") {
 			if vc.mode != ValueMode {
 				continue
@@ -165,18 +178,53 @@ func (vc *VC) resolveTarget(e *Expr, env *SpecEnv) (target, bool) {
 	return target{}, false
 }
 
-func (fr *frame) havocTarget(e *Expr, env *SpecEnv, cur *State) {
-	vc := fr.vc
-	tg, ok := vc.resolveTarget(e, env)
-	if !ok {
-		return
+// resolveTargets expands wildcard targets (kv.* = every ghost whose name starts with kv.)
+func (vc *VC) resolveTargets(e *Expr, env *SpecEnv) []target {
+	if e.Op == "binop" && e.Name == "*" && e.Args[1] == nil {
+		return nil
 	}
+	if e.Op == "wild" {
+		var out []target
+		pre := ghostName(e.Name) + "_"
+		var names []string
+		for k := range vc.ghost {
+			if strings.HasPrefix(k, pre) {
+				names = append(names, k)
+			}
+		}
+		sort.Strings(names)
+		for _, k := range names {
+			out = append(out, target{heap: k, whole: true, field: -1})
+		}
+		if len(out) == 0 {
+			vc.errorf("modifies: no ghost matches %s.*", e.Name)
+		}
+		return out
+	}
+	if tg, ok := vc.resolveTarget(e, env); ok {
+		return []target{tg}
+	}
+	return nil
+}
+
+func (fr *frame) havocTarget(e *Expr, env *SpecEnv, cur *State) {
+	for _, tg := range fr.vc.resolveTargets(e, env) {
+		fr.havocOne(tg, cur)
+	}
+}
+
+func (fr *frame) havocOne(tg target, cur *State) {
+	vc := fr.vc
 	srt := vc.heapSort[tg.heap]
 	switch {
 	case tg.whole:
 		c := vc.fresh("hv_"+tg.heap, srt)
 		cur.heaps[tg.heap] = c
-		fr.pendingWF = append(fr.pendingWF, [2]string{c, tg.heap})
+		if gt := vc.ghostType[tg.heap]; gt != nil {
+			fr.pendingField = append(fr.pendingField, pendF{c, gt})
+		} else {
+			fr.pendingWF = append(fr.pendingWF, [2]string{c, tg.heap})
+		}
 	case tg.field < 0:
 		c := vc.fresh("hv", arrayElemSort(srt))
 		cur.heaps[tg.heap] = sto(vc.heapGet(cur, tg.heap), tg.key, c)
@@ -387,6 +435,16 @@ func (e *Engine) runPass(vc *VC) {
 				}
 				alts = append(alts, and(m, vc.evalBool(cl.Expr, vc.topEnv(vc.entry))))
 			}
+			for _, cl := range con.Clauses {
+				if cl.Kind != "panics_site" {
+					continue
+				}
+				m := vc.matchExc(ps, cl)
+				if m == tFalse {
+					continue
+				}
+				alts = append(alts, and(m, vc.evalBool(cl.Expr, vc.topEnv(ps.st))))
+			}
 			o := vc.oblige("panic", fmt.Sprintf("panic%d.declared", k+1), ps.guard, or(alts...))
 			if o != nil {
 				o.NFacts = len(vc.facts)
@@ -426,9 +484,7 @@ func (vc *VC) frameObligations(ret int, r retSite, entryEnv *SpecEnv) {
 			continue
 		}
 		for _, me := range cl.Exprs {
-			if tg, ok := vc.resolveTarget(me, entryEnv); ok {
-				targets = append(targets, tg)
-			}
+			targets = append(targets, vc.resolveTargets(me, entryEnv)...)
 		}
 	}
 	var names []string
@@ -457,6 +513,11 @@ func (vc *VC) frameObligations(ret int, r retSite, entryEnv *SpecEnv) {
 			}
 		}
 		if whole {
+			continue
+		}
+		if !strings.HasPrefix(vc.heapSort[k], "(Array ") {
+			// scalar ghost: must be unchanged unless listed
+			vc.oblige("frame", fmt.Sprintf("ret%d.frame.%s", ret, k), r.guard, eq(final, k+"@0"))
 			continue
 		}
 		ks := arrayKeySort(vc.heapSort[k])
@@ -590,7 +651,7 @@ func (e *Engine) newVCNoFn(con *Contract) *VC {
 	vc := &VC{eng: e, con: con, declared: map[string]bool{}, heapSort: map[string]string{}, heapElem: map[string]types.Type{}, heapRows: map[string]bool{}, ghost: map[string]bool{},
 		counters: map[string]int{}, assumes: map[string]bool{}, strConst: map[string]string{}, typeIDs: map[string]int{},
 		params: map[string]SV{}, modLoops: map[*ssa.BasicBlock]map[string]bool{}, modFound: map[*ssa.BasicBlock]map[string]bool{},
-		nonnil: map[T]bool{}, used: map[string]bool{}, preludeUsed: map[string]bool{}}
+		nonnil: map[T]bool{}, used: map[string]bool{}, preludeUsed: map[string]bool{}, ghostType: map[string]types.Type{}}
 	vc.name = con.Key
 	return vc
 }
